@@ -1,5 +1,18 @@
 import ColoVerif.Driver.LegalizeIO
+import ColoVerif.Model.LegalizeKF
 /-
-Driver for C11: same protocol as C01 (`legalize` then `again` on legal placements).
+Driver for C11: same protocol as C01 (`legalize` then `again` on legal placements), plus
+
+  kf2        -> kf2 a b     (a = `Legalize.kf2Class f32`: the KF-C11-2 class, row-wide variant, on the movable
+                             cells of the current circuit with the current parameters, 0|1;
+                             b = `Legalize.kf2`: the classifier proper, pairs of one free segment, 0|1)
 -/
-def main : IO Unit := Driver.run Driver.legStep {}
+open ColoVerif ColoVerif.Legalize
+
+def c11Step (s : Driver.LegSt) (ws : List String) : Driver.LegSt × List String :=
+  match ws with
+  | ["kf2"] => (s, ["kf2 " ++ (if kf2Class f32 s.par (movable s.circ) then "1" else "0") ++
+                          (if kf2 s.par s.circ then " 1" else " 0")])
+  | _ => Driver.legStep s ws
+
+def main : IO Unit := Driver.run c11Step {}
